@@ -618,7 +618,10 @@ class Gen:
         out = []
         yn = self.fresh("bv")
         out.append(s_decl(yn, T("ullong"), i_e(lit("int", 0))))
-        for sn, f in r.sample(cands, min(len(cands), 3)):
+        # the fields of SBF that END their storage unit always take part (no bits above them inside the unit: the value of the
+        # expression must still be reduced to the field's width - defect repaired by the sub-word store fix)
+        fixed = [(sn, f) for sn, f in cands if self.structs[sc["structs"][sn] - 1]["name"] == "SBF" and f["n"] in ("b", "d", "f")]
+        for sn, f in fixed + r.sample(cands, min(len(cands), 3)):
             l = mem(var(sn), f["n"])
             for start, e in [(un("~", lit("int", 0)), incdec(l, dec=False, post=False)), (lit("int", 0), incdec(l, dec=True, post=False)),
                              (un("~", lit("int", 0)), incdec(l, dec=False, post=True)), (lit("int", 0), incdec(l, dec=True, post=True)),
@@ -777,6 +780,12 @@ class Gen:
                 if self.structs and r.random() < 0.6:
                     fields.append(("fn", St(r.randrange(1, len(self.structs) + 1)), 0))
             self.structs.append(struct("S%d" % (len(self.structs) + 1), fields))
+        if "bfops" in getattr(self, "force", ()):
+            # bit-fields at both ends of storage units of every width (a, c, e start a unit; b, d, f end it)
+            self.structs.append(struct("SBF", [("a", T("uchar"), 1), ("b", T("uchar"), 7), ("c", T("ushort"), 9), ("d", T("ushort"), 7),
+                                               ("e", T("uint"), 31), ("f", T("uint"), 1), ("g", T("ullong"), 33), ("h", T("ullong"), 40)]))
+            # (a 64-bit unit is not closed by a second field: one of the two would be narrower than 33 bits, and the promoted
+            # type of such a field is where gcc (int) and clang/cproc (its declared type) differ)
         for _ in range(r.randrange(2, 6)):
             n, t = self.fresh("g"), r.choice(ALL)
             self.globals.append(s_decl(n, T(t), i_e(self.lit_for(t))))
